@@ -37,11 +37,15 @@ CONSTANTS MaxTicks,     \* bound on the number of timer firings (model checking)
           SctxInit,     \* initial states of the Start context: subset of {"live", "cancelled"}
           StopOnCancel, \* FALSE = the code as it is; TRUE = a loop that also returns when the Start context is
                         \* done (`case <-ctx.Done(): return`), kept to show what the Start-context scenarios are for
+          MaxExtra,     \* Shutdown may be called up to this many times more after it has returned
+          ExtraRefreshes, \* FALSE = requirement; TRUE = a repeated Shutdown that runs the RefreshOnShutdown branch
+                        \* again (close(done) guarded by a sync.Once, the refresh not), kept for demonstration
           CloseLate     \* FALSE = the code as it is (`close(w.done)` first); TRUE = a Shutdown that closes
                         \* done only when it returns (`defer close(w.done)`), kept to show on the design
                         \* what the window check is for
 
 VARIABLES ros,       \* Go: w.refrOnShutdown
+          extra,     \* number of Shutdown calls made after the first one returned
           sctx,      \* the context passed to Start: "live" or "cancelled" (environment: a start-up timeout
                      \* context is cancelled once Start has returned; it may even be cancelled already)
           lp,        \* loop goroutine: "ask", "sleep", "waiting", "refresh", "handle", "stopped"
@@ -64,7 +68,7 @@ VARIABLES ros,       \* Go: w.refrOnShutdown
           trig       \* what started the refresh in progress: "tick", "tbd", or "late" = a tick taken after
                      \* Shutdown was called with done still open ("none" when no loop refresh is starting)
 
-wvars == <<ros, sctx, lp, sp, done, nnow, nd, askedWith, waitD, timer, timerD, fires, ticks,
+wvars == <<ros, sctx, extra, lp, sp, done, nnow, nd, askedWith, waitD, timer, timerD, fires, ticks,
            refs, lerr, handled, result, ferr, tbd, trig>>
 
 (* The loop hands the START context to the constructor for every refresh     *)
@@ -85,7 +89,7 @@ Ref(who, out) == [who |-> who, cons |-> TRUE, live |-> (who = "final" \/ sctx = 
                   trig |-> IF who = "loop" THEN trig ELSE "none"]
 
 WNewState(r) ==
-    /\ ros = r /\ sctx \in SctxInit /\ lp = "ask" /\ sp = "none" /\ done = FALSE
+    /\ ros = r /\ sctx \in SctxInit /\ extra = 0 /\ lp = "ask" /\ sp = "none" /\ done = FALSE
     /\ nnow = 0 /\ nd = 0 /\ askedWith = 0 /\ waitD = 0
     /\ timer = "none" /\ timerD = 0 /\ fires = 0 /\ ticks = 0
     /\ refs = <<>> /\ lerr = 0 /\ handled = <<>> /\ result = -1 /\ ferr = 0 /\ tbd = 0 /\ trig = "none"
@@ -100,18 +104,18 @@ AskSchedule ==
     /\ nnow' = nnow + 1 /\ askedWith' = nnow + 1
     /\ nd' = nd + 1 /\ waitD' = nd + 1
     /\ lp' = "sleep"
-    /\ UNCHANGED <<ros, sctx, sp, done, timer, timerD, fires, ticks, refs, lerr, handled, result, ferr, tbd, trig>>
+    /\ UNCHANGED <<ros, sctx, extra, sp, done, timer, timerD, fires, ticks, refs, lerr, handled, result, ferr, tbd, trig>>
 
 (* `clock.After(waitDur)`, evaluated on entering the select. *)
 Sleep ==
     /\ lp = "sleep"
     /\ timer' = "pending" /\ timerD' = waitD
     /\ lp' = "waiting"
-    /\ UNCHANGED <<ros, sctx, sp, done, nnow, nd, askedWith, waitD, fires, ticks, refs, lerr, handled, result, ferr, tbd, trig>>
+    /\ UNCHANGED <<ros, sctx, extra, sp, done, nnow, nd, askedWith, waitD, fires, ticks, refs, lerr, handled, result, ferr, tbd, trig>>
 
 TickEffect ==
     /\ lp' = "refresh" /\ timer' = "none" /\ ticks' = ticks + 1
-    /\ UNCHANGED <<ros, sctx, sp, done, nnow, nd, askedWith, waitD, timerD, refs, lerr, handled, result, ferr>>
+    /\ UNCHANGED <<ros, sctx, extra, sp, done, nnow, nd, askedWith, waitD, timerD, refs, lerr, handled, result, ferr>>
 
 (* The select takes the timer branch. *)
 TickKind == IF sp = "none" THEN "tick" ELSE "late"
@@ -124,13 +128,13 @@ SeeStartCtxDone ==
     /\ StopOnCancel
     /\ lp = "waiting" /\ sctx = "cancelled"
     /\ lp' = "stopped"
-    /\ UNCHANGED <<ros, sctx, sp, done, nnow, nd, askedWith, waitD, timer, timerD, fires, ticks, refs, lerr, handled, result, ferr, tbd, trig>>
+    /\ UNCHANGED <<ros, sctx, extra, sp, done, nnow, nd, askedWith, waitD, timer, timerD, fires, ticks, refs, lerr, handled, result, ferr, tbd, trig>>
 
 (* The select takes the done branch. *)
 SeeDone ==
     /\ lp = "waiting" /\ done
     /\ lp' = "stopped"
-    /\ UNCHANGED <<ros, sctx, sp, done, nnow, nd, askedWith, waitD, timer, timerD, fires, ticks, refs, lerr, handled, result, ferr, tbd, trig>>
+    /\ UNCHANGED <<ros, sctx, extra, sp, done, nnow, nd, askedWith, waitD, timer, timerD, fires, ticks, refs, lerr, handled, result, ferr, tbd, trig>>
 
 (* `err := w.refresh(ctx)` in the loop. *)
 Refresh(out) ==
@@ -139,7 +143,7 @@ Refresh(out) ==
     /\ IF out = "err" THEN lerr' = Len(refs) + 1 /\ lp' = "handle"
                       ELSE lerr' = 0 /\ lp' = "ask"
     /\ trig' = "none"
-    /\ UNCHANGED <<ros, sctx, sp, done, nnow, nd, askedWith, waitD, timer, timerD, fires, ticks, handled, result, ferr, tbd>>
+    /\ UNCHANGED <<ros, sctx, extra, sp, done, nnow, nd, askedWith, waitD, timer, timerD, fires, ticks, handled, result, ferr, tbd>>
 
 (* `w.errHdlr.Handle(ctx, err)` *)
 HandleError ==
@@ -147,7 +151,7 @@ HandleError ==
     /\ handled' = Append(handled, lerr)
     /\ lerr' = 0
     /\ lp' = "ask"
-    /\ UNCHANGED <<ros, sctx, sp, done, nnow, nd, askedWith, waitD, timer, timerD, fires, ticks, refs, result, ferr, tbd, trig>>
+    /\ UNCHANGED <<ros, sctx, extra, sp, done, nnow, nd, askedWith, waitD, timer, timerD, fires, ticks, refs, result, ferr, tbd, trig>>
 
 ----------------------------------------------------------------------------
 (* The environment. *)
@@ -156,13 +160,13 @@ Fire ==
     /\ timer = "pending" /\ fires < MaxTicks
     /\ (AllowTBD \/ (lp = "waiting" /\ ~done))
     /\ timer' = "fired" /\ fires' = fires + 1
-    /\ UNCHANGED <<ros, sctx, lp, sp, done, nnow, nd, askedWith, waitD, timerD, ticks, refs, lerr, handled, result, ferr, tbd, trig>>
+    /\ UNCHANGED <<ros, sctx, extra, lp, sp, done, nnow, nd, askedWith, waitD, timerD, ticks, refs, lerr, handled, result, ferr, tbd, trig>>
 
 (* The application cancels the context it passed to Start. *)
 CancelStart ==
     /\ sctx = "live"
     /\ sctx' = "cancelled"
-    /\ UNCHANGED <<ros, lp, sp, done, nnow, nd, askedWith, waitD, timer, timerD, fires, ticks, refs, lerr, handled, result, ferr, tbd, trig>>
+    /\ UNCHANGED <<ros, extra, lp, sp, done, nnow, nd, askedWith, waitD, timer, timerD, fires, ticks, refs, lerr, handled, result, ferr, tbd, trig>>
 
 (* What a conformance driver does: hand the tick to a worker that is parked   *)
 (* in the select (Fire and Tick in one step).  Impossible once done is        *)
@@ -178,7 +182,7 @@ Shutdown ==
     /\ sp = "none"
     /\ done' = (IF CloseLate THEN done ELSE TRUE)
     /\ sp' = IF ros THEN "final" ELSE "returning"
-    /\ UNCHANGED <<ros, sctx, lp, nnow, nd, askedWith, waitD, timer, timerD, fires, ticks, refs, lerr, handled, result, ferr, tbd, trig>>
+    /\ UNCHANGED <<ros, sctx, extra, lp, nnow, nd, askedWith, waitD, timer, timerD, fires, ticks, refs, lerr, handled, result, ferr, tbd, trig>>
 
 (* `err = w.refresh(ctx)` in Shutdown: the refresher is entered.  Until        *)
 (* ShutdownReturn the final refresh is IN FLIGHT (sp = "infinal"): that is    *)
@@ -189,7 +193,7 @@ FinalRefresh(out) ==
     /\ refs' = Append(refs, Ref("final", out))
     /\ ferr' = IF out = "err" THEN Len(refs) + 1 ELSE 0
     /\ sp' = "infinal"
-    /\ UNCHANGED <<ros, sctx, lp, done, nnow, nd, askedWith, waitD, timer, timerD, fires, ticks, lerr, handled, result, tbd, trig>>
+    /\ UNCHANGED <<ros, sctx, extra, lp, done, nnow, nd, askedWith, waitD, timer, timerD, fires, ticks, lerr, handled, result, tbd, trig>>
 
 (* `return fmt.Errorf("refresh on shutdown: %w", err)` / `return nil` *)
 ShutdownReturn ==
@@ -197,7 +201,20 @@ ShutdownReturn ==
     /\ result' = ferr
     /\ sp' = "returned"
     /\ done' = TRUE
-    /\ UNCHANGED <<ros, sctx, lp, nnow, nd, askedWith, waitD, timer, timerD, fires, ticks, refs, lerr, handled, ferr, tbd, trig>>
+    /\ UNCHANGED <<ros, sctx, extra, lp, nnow, nd, askedWith, waitD, timer, timerD, fires, ticks, refs, lerr, handled, ferr, tbd, trig>>
+
+(* Shutdown is called AGAIN after it has returned (an application's deferred   *)
+(* clean-up plus its signal handler, say).  C18 does not say what that call   *)
+(* returns: it may panic (what the code does: close of a closed channel) or   *)
+(* return; but "after Shutdown refreshes no more except for the single final  *)
+(* Refresh": it must not cause any further Refresh.                           *)
+ShutdownAgain ==
+    /\ sp = "returned" /\ extra < MaxExtra
+    /\ extra' = extra + 1
+    /\ IF ExtraRefreshes /\ ros
+         THEN refs' = Append(refs, Ref("final", "nil"))
+         ELSE UNCHANGED refs
+    /\ UNCHANGED <<ros, sctx, lp, sp, done, nnow, nd, askedWith, waitD, timer, timerD, fires, ticks, lerr, handled, result, ferr, tbd, trig>>
 
 (* The environment offers a tick while the final refresh is in flight (the    *)
 (* driver's non-blocking hand-over).  It can only be taken by a worker that   *)
@@ -206,7 +223,7 @@ WindowTick == sp = "infinal" /\ DeliverTick
 
 LoopStep == AskSchedule \/ Sleep \/ Tick \/ TickBeatsDone \/ SeeDone \/ SeeStartCtxDone
             \/ (\E o \in RefOutcomes : Refresh(o)) \/ HandleError
-CallerStep == Shutdown \/ (\E o \in RefOutcomes : FinalRefresh(o)) \/ ShutdownReturn
+CallerStep == Shutdown \/ (\E o \in RefOutcomes : FinalRefresh(o)) \/ ShutdownReturn \/ ShutdownAgain
 WNext == LoopStep \/ CallerStep \/ Fire \/ WindowTick \/ CancelStart
 
 WSpec == WInit /\ [][WNext]_wvars /\ WF_wvars(LoopStep) /\ SF_wvars(SeeDone)
